@@ -196,6 +196,19 @@ def dynamic_part(ctx):
                 S.call(f"SSPOR[{bk},{ok}].update_n_basis_modes(2)", lambda: ((), {}), lambda: model.update_n_basis_modes(2), lambda: model.basis.basis_matrix_)
                 S.call(f"SSPOR[{bk},{ok}].update_n_basis_modes(k, x)", lambda: ((X.copy(),), {}), lambda x: model.update_n_basis_modes(min(ne, nf, 4), x, quiet=True))
                 S.call(f"SSPOR[{bk},{ok}].set_number_of_sensors", lambda: ((), {}), lambda: model.set_number_of_sensors(2), watch)
+        # square reconstruction path (as many sensors as modes): measurements in every layout the caller may hold
+        for bk in models.BASIS_KINDS:
+            nm = min(3, ne, nf)
+            msq = SSPOR(basis=models.make_basis(bk, nm), optimizer=QR(), n_sensors=nm).fit(X.copy(), quiet=True, seed=1)
+            selq = np.array(msq.get_selected_sensors())
+            wq = lambda: (msq.basis_matrix_, msq.basis.basis_matrix_)
+            S.call(f"SSPOR[{bk},square].predict(y 2-D C)", lambda: ((np.ascontiguousarray(X[:, selq]),), {}), lambda y: msq.predict(y), wq)
+            S.call(f"SSPOR[{bk},square].predict(y 2-D F)", lambda: ((np.asfortranarray(X[:, selq]),), {}), lambda y: msq.predict(y), wq)
+            S.call(f"SSPOR[{bk},square].predict(y 1-D)", lambda: ((X[0, selq].copy(),), {}), lambda y: msq.predict(y), wq)
+            S.call(f"SSPOR[{bk},square].predict(y one row)", lambda: ((X[:1, selq].copy(),), {}), lambda y: msq.predict(y), wq)
+            S.call(f"SSPOR[{bk},square].score(x)", lambda: ((X.copy(),), {}), lambda x: msq.score(x), wq)
+            S.call(f"SSPOR[{bk},square].reconstruction_error(x)", lambda: ((X.copy(), np.array([nm])), {}),
+                   lambda x, r: msq.reconstruction_error(x, sensor_range=r), wq)
         # SSPOR handing GQR its keyword arrays (region list – possibly empty – and the unconstrained ranking), several seeds
         for Lk, Lv in (("region", L), ("empty region", np.array([], dtype=int))):
             for opt in ("max_n", "exact_n", "predetermined"):
